@@ -1979,6 +1979,9 @@ func (m *Dot11MgmtReassociationReq) DecodeFromBytes(data []byte, df gopacket.Dec
 }
 
 func (m Dot11MgmtReassociationReq) SerializeTo(b gopacket.SerializeBuffer, opts gopacket.SerializeOptions) error {
+	if len(m.CurrentApAddress) != 6 {
+		return fmt.Errorf("invalid current AP address: %v", m.CurrentApAddress)
+	}
 	buf, err := b.PrependBytes(10)
 
 	if err != nil {
